@@ -16,9 +16,10 @@
     most general) ([C07_unify_complete]). Together: inference terminates and accepts exactly the
     solvable systems ([C07_full_proved], the statement kept visible as [C07_full] since the
     first version), so acceptance does not depend on the order of the equations
-    ([C07_acceptance_permutation]). *)
+    ([C07_acceptance_permutation]) nor on the names of the type variables
+    ([C07_acceptance_renaming], for every bijective renaming). *)
 From Oal Require Import Tag Unify UnifyProofs.
-From Oal Require UnifyTerm UnifyComplete.
+From Oal Require UnifyTerm UnifyComplete UnifyRename.
 From Coq Require Import Permutation.
 
 Theorem C07_unify_sound_partial : forall n eqs s i s' j,
@@ -112,3 +113,16 @@ Theorem C07_acceptance_permutation : forall eqs eqs', Permutation eqs eqs' ->
   (exists n s j, unify_all n [] eqs 0 = (UOk s, j)) -> exists n s j, unify_all n [] eqs' 0 = (UOk s, j).
 Proof. exact UnifyComplete.acceptance_permutation. Qed.
 Print Assumptions C07_acceptance_permutation.
+
+(** acceptance does not depend on the names of the variables *)
+Theorem C07_acceptance_renaming : forall rho rho' eqs, (forall v, rho' (rho v) = v) -> (forall v, rho (rho' v) = v) ->
+  (exists n s j, unify_all n [] eqs 0 = (UOk s, j)) <->
+  (exists n s j, unify_all n [] (map (UnifyRename.req rho) eqs) 0 = (UOk s, j)).
+Proof. exact UnifyRename.acceptance_renaming_iff. Qed.
+Print Assumptions C07_acceptance_renaming.
+
+Theorem C07_acceptance_swap : forall eqs,
+  (exists n s j, unify_all n [] eqs 0 = (UOk s, j)) ->
+  exists n s j, unify_all n [] (map (fun e : tag * tag => (snd e, fst e)) eqs) 0 = (UOk s, j).
+Proof. exact UnifyRename.acceptance_swap. Qed.
+Print Assumptions C07_acceptance_swap.
